@@ -221,6 +221,21 @@ impl Property for C16 {
                     if drop_optional & 1 != 0 && m.get("environment") == Some(&Value::Null) {
                         m.remove("environment");
                     }
+                    if drop_optional & 24 == 24 {
+                        // keys carrying an explicitly empty keyid_hash_algorithms list, filed under the id of that description
+                        if let (Some(keys), Doc::Layout(l)) = (m.get_mut("keys").and_then(|k| k.as_object_mut()), doc) {
+                            if l.steps.iter().all(|s| s.pubkeys.is_empty()) {
+                                let mut renamed = serde_json::Map::new();
+                                for k in &l.keys {
+                                    let d = crate::model::keyid::describe(k);
+                                    let id = crate::model::keyid::reference_key_id_with_list(&d, Some(&[]));
+                                    renamed.insert(id.clone(), json!({"keyid": id, "keytype": d.keytype, "scheme": d.scheme, "keyid_hash_algorithms": [], "keyval": {"private": "", "public": d.public}}));
+                                }
+                                *keys = renamed;
+                                o.class("keys-with-empty-hash-algorithm-list");
+                            }
+                        }
+                    }
                     if let Some(keys) = m.get_mut("keys").and_then(|k| k.as_object_mut()) {
                         for (_, k) in keys.iter_mut() {
                             if drop_optional & 2 != 0 {
@@ -269,7 +284,7 @@ impl Property for C16 {
                         } else {
                             serde_json::from_str::<MetadataWrapper>(&text).map(|m| m == doc.to_lib()).unwrap_or(false)
                         };
-                        if !parsed_equal {
+                        if !parsed_equal && !o.classes.iter().any(|c| c == "keys-with-empty-hash-algorithm-list") {
                             o.fail("C16/rendered/parsed-value-differs-from-built-value", format!("document {}", text), "parse(D) == value built from the same specification");
                         }
                     }
